@@ -15,6 +15,11 @@ must be the same sky after each export.
 Sequence cases drive the MIMAS module functions / CLI main repeatedly in ONE process on the SAME .mim paths (save,
 export, mask, combine, intersect, export again, overwrite the file by Region.save and by a plain pickle dump, export
 again): whatever the code remembers between calls, every export and load must describe the file that is on disk.
+Extreme cases: whole sky minus a few cells (and a few cells only; and overlapping descriptions whose summed area is the
+sphere) at every depth 1..12, built by different routes; where the deepest level cannot be enumerated (> 4e5 cells) the
+file and the region are compared in canonical multi-level form and no demoting query is made.
+Alias cases: a region built from another one (union into an empty region, add_pixels with the other's sets, pickle
+copy, ...), ONE of the two modified, BOTH exported; the untouched one is judged against a by-value snapshot.
 """
 import contextlib
 import io
@@ -51,7 +56,14 @@ MIN_COUNTERS = {'moc_files_judged': 300, 'moc_after_query_judged': 100, 'moc_cel
                 'history_regions': 50, 'sequences': 20, 'intersect_judged': 60, 'intersect_differs_from_a': 30,
                 'sequence_exports_after_intersect': 80, 'sequence_exports_after_rewrite': 80,
                 'sequence_exports_before_intersect': 10, 'sequence_loads_judged': 150, 'mask_catalog_calls_ok': 8,
-                'mask_file_calls_ok': 8, 'combine_from_files_judged': 30}
+                'mask_file_calls_ok': 8, 'combine_from_files_judged': 30,
+                'extreme_regions': 50, 'near_full_sky_regions': 10, 'near_full_sky_moc_judged': 15,
+                'whole_sky_minus_a_few_cells_moc_judged': 60, 'near_empty_sky_moc_judged': 15,
+                'moc_judged_in_canonical_form': 10, 'extreme_route_whole_without': 8, 'extreme_route_overlap_sum_full': 8,
+                'alias_cases': 100, 'alias_untouched_exports_judged': 500, 'alias_untouched_state_checks': 300,
+                'alias_modified_A': 30, 'alias_modified_B': 30, 'alias_route_union_into_empty': 10,
+                'alias_route_union_into_deeper': 8, 'alias_route_add_pixels_layers': 8,
+                'alias_route_shared_caller_set': 8, 'alias_route_pickle_copy': 8}
 BATCH_TIMEOUT = 1500
 
 REG_TOL_ARCSEC = 0.2
@@ -181,6 +193,82 @@ def judge_reg(polys, levels):
     return {'problems': probs, 'worst': worst, 'n': len(polys), 'n_stored': len(stored)}
 
 
+# ---------------------------------------------------------------------------------------------- sky comparison
+BIG = 400000        # above this many deepest-level cells two descriptions are compared in canonical multi-level form
+
+
+def est_size(levels, M):
+    return sum(len(s) * 4 ** max(0, M - d) for d, s in levels.items())
+
+
+def canon(levels):
+    """canonical multi-level form of a description {level: set(int)}: cells with a stored ancestor dropped, complete
+    sibling quadruples merged upwards as far as level 0.  Two descriptions cover the same sky iff their canonical forms
+    are equal; nothing is ever expanded, so whole-sky-minus-a-few-cells at depth 12 stays a few dozen cells."""
+    lv = dict((d, set(x)) for d, x in levels.items() if x)
+    ds = sorted(lv)
+    for i, d in enumerate(ds):
+        for e in ds[:i]:
+            sh = 2 * (d - e)
+            up = lv[e]
+            lv[d] = set(p for p in lv[d] if (p >> sh) not in up)
+    for d in range(max(lv) if lv else 0, 0, -1):
+        cur = lv.get(d)
+        if not cur:
+            continue
+        for p in [q for q in cur if q % 4 == 0]:
+            if p + 1 in cur and p + 2 in cur and p + 3 in cur:
+                cur.difference_update((p, p + 1, p + 2, p + 3))
+                lv.setdefault(d - 1, set()).add(p >> 2)
+    return dict((d, x) for d, x in lv.items() if x)
+
+
+_canon_checked = [False]
+
+
+def canon_selfcheck():
+    if _canon_checked[0]:
+        return
+    rng = np.random.default_rng(4242)
+    for _ in range(60):
+        M = int(rng.integers(1, 5))
+        lv = {}
+        for d in range(0, M + 1):
+            n = int(rng.integers(0, 1 + hs.npix(d) // 2))
+            lv[d] = set(int(x) for x in rng.integers(0, hs.npix(d), n))
+        c = canon(lv)
+        if hs.expand(c, M) != hs.expand(lv, M) or hs.overlap_problems(c) or hs.n_mergeable(c, lowest=0):
+            raise RuntimeError('oracle fault: canonical form')
+        other = dict(lv)
+        other[M] = set(lv[M]) | {int(rng.integers(0, hs.npix(M)))}
+        if (canon(other) == c) != (hs.expand(other, M) == hs.expand(lv, M)):
+            raise RuntimeError('oracle fault: canonical form equality')
+    if canon({1: set(range(48))}) != {0: set(range(12))} or canon({2: set(range(192)) - {5}}) != \
+            {0: set(range(1, 12)), 1: {0, 2, 3}, 2: {4, 6, 7}}:
+        raise RuntimeError('oracle fault: canonical form constants')
+    _canon_checked[0] = True
+
+
+def sky(levels, M):
+    """a comparable token for the sky covered: the deepest-level set, or the canonical form when that would be huge"""
+    if est_size(levels, M) > BIG:
+        return ('canon', canon(dict((d, x) for d, x in levels.items())))
+    return ('set', hs.expand(levels, M))
+
+
+def complement_levels(holes, M):
+    """whole sky minus the deepest-level cells `holes`, as non-overlapping cells at levels 1..M (never expanded)"""
+    anc = dict((d, set(h >> (2 * (M - d)) for h in holes)) for d in range(0, M + 1))
+    out = dict((d, set()) for d in range(1, M + 1))
+    for b in range(12):
+        if b not in anc[0]:
+            out[1].update(range(4 * b, 4 * b + 4))
+    for d in range(1, M + 1):
+        for a in anc[d - 1]:
+            out[d].update(c for c in range(4 * a, 4 * a + 4) if c not in anc[d])
+    return out
+
+
 # ---------------------------------------------------------------------------------------------- the export battery
 class Exporter:
     def __init__(self, o, workdir, desc):
@@ -216,14 +304,16 @@ class Exporter:
         return os.path.join(self.workdir, 'x%d.%s' % (self.n, ext))
 
     # ---- one file each
-    def moc(self, region, stage, writer=None, after_query=False):
+    def moc(self, region, stage, writer=None, after_query=False, expect=None):
+        """`expect` (a by-value snapshot) replaces the region's own state as the truth the file is judged against"""
         o = self.o
-        levels, frac = snapshot(region)
+        own, frac = snapshot(region)
         if frac:
             o.count('skipped_fractional_state')
             return
-        M = region.maxdepth
-        truth = hs.expand(levels, M)
+        own_sky = sky(own, region.maxdepth)
+        levels = expect.pixeldict if expect is not None else own
+        M = expect.maxdepth if expect is not None else region.maxdepth
         path = self.path('fits')
         ok, _ = self.subject(region, stage, writer or region.write_fits, path)
         if not ok:
@@ -246,7 +336,21 @@ class Exporter:
             self.violate('moc_cell_deeper_than_order', {'orders': too_deep}, region, stage)
         if meta['MOCORDER'] != M:
             self.violate('moc_order', {'MOCORDER': meta['MOCORDER']}, region, stage)
-        got = hs.expand(dict((d, s) for d, s in cells.items() if d <= M), M)
+        cm = dict((d, s) for d, s in cells.items() if d <= M)
+        if est_size(levels, M) > BIG or est_size(cm, M) > BIG:
+            tc, gc = canon(levels), canon(cm)
+            o.count('moc_judged_in_canonical_form')
+            if tc != gc:
+                only_r = sorted((d, p) for d in tc for p in tc[d] - gc.get(d, set()))
+                only_m = sorted((d, p) for d in gc for p in gc[d] - tc.get(d, set()))
+                self.violate('moc_vs_region', {'compared': 'canonical multi-level forms', 'n_cells_only_in_region': len(only_r),
+                                               'n_cells_only_in_moc': len(only_m), 'cells_only_in_region': only_r[:5],
+                                               'cells_only_in_moc': only_m[:5],
+                                               'cells_per_order': dict((d, len(s)) for d, s in cells.items())}, region, stage)
+            self.unchanged(region, own_sky, stage, 'write_fits')
+            return
+        truth = hs.expand(levels, M)
+        got = hs.expand(cm, M)
         if got != truth:
             miss = truth - got
             extra = got - truth
@@ -257,18 +361,19 @@ class Exporter:
                                            'missing_is_exactly_deepest_level': miss == (deepest - hs.expand(
                                                dict((d, s) for d, s in levels.items() if d < M), M)),
                                            'cells_per_order': dict((d, len(s)) for d, s in cells.items())}, region, stage)
-        self.unchanged(region, truth, stage, 'write_fits')
+        self.unchanged(region, own_sky, stage, 'write_fits')
 
-    def reg(self, region, stage, writer=None, after_query=False):
+    def reg(self, region, stage, writer=None, after_query=False, expect=None):
         o = self.o
-        levels, frac = snapshot(region)
+        own, frac = snapshot(region)
         if frac:
             return
-        nst = sum(len(s) for s in levels.values())
+        levels = expect.pixeldict if expect is not None else own
+        nst = max(sum(len(s) for s in levels.values()), sum(len(s) for s in own.values()))
         if nst > REG_MAX_POLY:
             o.count('reg_skipped_size')
             return
-        truth = hs.expand(levels, region.maxdepth)
+        own_sky = sky(own, region.maxdepth)
         path = self.path('reg')
         ok, _ = self.subject(region, stage, writer or region.write_reg, path)
         if not ok:
@@ -291,16 +396,19 @@ class Exporter:
             self.violate('reg_polygon_count', {'polygons': res['n'], 'stored_pixels': res['n_stored']}, region, stage)
         for p in res['problems'][:3]:
             self.violate('reg_' + p['kind'], p, region, stage)
-        self.unchanged(region, truth, stage, 'write_reg')
+        self.unchanged(region, own_sky, stage, 'write_reg')
 
-    def mim(self, region, stage, saver=None):
+    def mim(self, region, stage, saver=None, expect=None):
         o = self.o
         from AegeanTools.regions import Region
-        levels, frac = snapshot(region)
+        own, frac = snapshot(region)
         if frac:
             return None
-        M = region.maxdepth
-        truth = hs.expand(levels, M)
+        own_sky = sky(own, region.maxdepth)
+        levels = expect.pixeldict if expect is not None else own
+        M = expect.maxdepth if expect is not None else region.maxdepth
+        big = own_sky[0] == 'canon'
+        truth = None if big else hs.expand(own, region.maxdepth)
         path = self.path('mim')
         if saver is None:
             ok, _ = self.subject(region, stage, region.save, path)
@@ -320,6 +428,8 @@ class Exporter:
             self.violate('mim_reload_differs', {'loaded_maxdepth': r2.maxdepth,
                                                 'loaded_per_level': dict((d, len(s)) for d, s in l2.items() if s)},
                          region, stage)
+        elif big:
+            o.count('mim_answers_not_asked_of_huge_region')      # get_demoted would enumerate > 4e5 cells
         else:
             # the reloaded object must also *answer* like the original does (asked of a deep copy of the original, so
             # nothing is demoted by asking; whether those answers are the right ones is C08's question)
@@ -339,12 +449,12 @@ class Exporter:
                     self.violate('mim_reloaded_area', {'area_reloaded': a2, 'area_original': a0}, region, stage)
                 if cl[M] != truth:
                     self.o.count('original_answers_differ_from_its_own_pixeldict')     # C08's finding (stale cache)
-        self.unchanged(region, truth, stage, 'save')
+        self.unchanged(region, own_sky, stage, 'save')
         return path
 
-    def unchanged(self, region, truth, stage, what):
+    def unchanged(self, region, before, stage, what):
         levels, frac = snapshot(region)
-        if frac or hs.expand(levels, region.maxdepth) != truth:
+        if frac or sky(levels, region.maxdepth) != before:
             self.violate('export_changed_region', {'export': what}, region, stage)
 
     # ---- the battery
@@ -357,12 +467,15 @@ class Exporter:
         if frac:
             o.count('skipped_fractional_state')
             return
-        truth = hs.expand(levels, M)
-        if model is not None and truth != model:
+        token = sky(levels, M)
+        if model is not None and token[0] == 'set' and token[1] != model:
             o.count('state_differs_from_shadow_model')      # C08's finding, not judged here
         o.see('maxdepth', M)
         o.worst('stored_pixels', sum(len(s) for s in levels.values()))
         stages = ['fresh', 'after_sky_within', 'after_get_demoted']
+        if token[0] == 'canon':
+            stages = ['fresh']          # a query would enumerate more than 4e5 deepest-level cells
+            o.count('huge_regions_exported_without_queries')
         for st in stages:
             if st == 'after_sky_within':
                 ok, _ = self.subject(region, st, region.sky_within, [0.3, 1.0], [0.1, -0.4])
@@ -650,8 +763,280 @@ def run_sequence(case, o, workdir):
     o.sample = {'depth': M, 'via': via, 'steps': log, 'a_cells': len(disk[pa_].deepest()), 'b_cells': len(disk[pb_].deepest())}
 
 
+# ---------------------------------------------------------------------------------------------- near-extreme regions
+EXTREME_ROUTES = ('complement_norenorm', 'complement_renorm', 'whole_without', 'few_only', 'few_by_intersect',
+                  'overlap_sum_full')
+
+
+def run_extreme(case, o, workdir):
+    """whole sky minus a few cells (and, symmetrically, a few cells only) at every depth, built by different routes,
+    exported by API / MIMAS functions / CLI, before and after queries where the region can be enumerated"""
+    from AegeanTools.regions import Region
+    rng = rng_for(*case['seed'])
+    M = case['depth']
+    route = case['route']
+    k = case['k']
+    n = hs.npix(M)
+    first = int(rng.integers(0, n))
+    if k > 1 and rng.random() < 0.5:
+        holes = sorted(set([first] + [(first & ~3) + int(x) for x in rng.integers(0, 4, k - 1)]))     # siblings
+    else:
+        holes = sorted(set([first] + [int(x) for x in rng.integers(0, n, k - 1)]))
+    r = Region(maxdepth=M)
+    if route == 'complement_norenorm':
+        # the caller hands over a non-overlapping multi-level description and defers renormalisation
+        for d, cells in sorted(complement_levels(holes, M).items()):
+            if cells:
+                r.add_pixels(sorted(cells), d, renorm=False)
+        want = complement_levels(holes, M)
+    elif route == 'complement_renorm':
+        r.add_pixels(np.setdiff1d(np.arange(n, dtype=np.int64), np.array(holes, dtype=np.int64)), M)
+        want = complement_levels(holes, M)
+    elif route == 'whole_without':
+        lvl = int(rng.integers(1, M + 1))
+        r.add_pixels(np.arange(hs.npix(lvl)), lvl)
+        h = Region(maxdepth=M)
+        h.add_pixels(holes, M)
+        if rng.random() < 0.5:
+            r.sky_within(0.3, 0.2)
+        if rng.random() < 0.5:
+            r.without(h)
+        else:
+            r.symmetric_difference(h)
+        want = complement_levels(holes, M)
+    elif route == 'few_only':
+        r.add_pixels(holes, M, renorm=bool(rng.random() < 0.5))
+        want = {M: set(holes)}
+    elif route == 'few_by_intersect':
+        lvl = int(rng.integers(1, M + 1))
+        r.add_pixels(np.arange(hs.npix(lvl)), lvl)
+        h = Region(maxdepth=M)
+        h.add_pixels(holes, M)
+        r.intersect(h)
+        want = {M: set(holes)}
+    elif route == 'overlap_sum_full':
+        # 47 of the 48 level-1 cells plus, again, the four children of one of them: the summed area is the whole
+        # sphere, the sky covered is not
+        c = int(rng.integers(0, 48))
+        c2 = (c + 1 + int(rng.integers(0, 47))) % 48
+        r.add_pixels([x for x in range(48) if x != c], 1, renorm=False)
+        r.add_pixels([4 * c2 + x for x in range(4)], 2, renorm=False)
+        want = {1: set(x for x in range(48) if x != c)}
+    else:
+        raise RuntimeError('harness: unknown route')
+    lv, fr = snapshot(r)
+    if fr or canon(lv) != canon(want):
+        # the construction itself is C08's question; without the intended region there is nothing to export here
+        o.count('extreme_construction_differs_from_intent')
+    cov = sum(len(x) * 4 ** (M - d) for d, x in canon(lv).items())      # exact count of deepest-level cells covered
+    near_full = 0 < n - cov <= 1e-5 * n
+    near_empty = 0 < cov <= 1e-5 * n
+    o.count('extreme_regions')
+    o.count('extreme_route_' + route)
+    before = o.counters.get('moc_files_judged', 0)
+    ex = Exporter(o, workdir, {'extreme': route, 'depth': M, 'holes_or_cells': holes[:6], 'via': case['via'],
+                               'cells_covered': cov, 'cells_on_sphere': n})
+    ex.battery(r, via=case['via'])
+    judged = o.counters.get('moc_files_judged', 0) - before
+    if near_full:
+        o.count('near_full_sky_regions')
+        o.count('near_full_sky_moc_judged', judged)
+        o.see('near_full_sky_depths', M)
+    if near_empty:
+        o.count('near_empty_sky_moc_judged', judged)
+    if n - cov > 0 and n - cov <= max(8, 1e-4 * n):
+        o.count('whole_sky_minus_a_few_cells_moc_judged', judged)
+    o.n_nontrivial += 1
+    o.sample = {'route': route, 'depth': M, 'holes_or_cells': holes[:6], 'missing_fraction': (n - cov) / n,
+                'stored_per_level': dict((d, len(x)) for d, x in lv.items() if x), 'moc_files_judged': judged}
+
+
+# ---------------------------------------------------------------------------------------------- regions that share history
+ALIAS_ROUTES = ('union_into_empty', 'union_into_empty_norenorm', 'union_into_deeper', 'union_into_coarser',
+                'add_pixels_layers', 'add_pixels_layers_norenorm', 'shared_caller_set', 'pickle_copy',
+                'symdiff_into_empty', 'intersect_with_whole', 'union_then_union')
+ALIAS_MODS = ('add_circles', 'without', 'intersect', 'symmetric_difference', 'union', 'add_pixels', 'get_demoted',
+              'sky_within', '_renorm')
+
+
+def run_alias(case, o, workdir):
+    """One region is built from another, then ONE of the two is modified, then BOTH are exported: the untouched one must
+    still export exactly what it was (by-value snapshot taken before the modification)."""
+    import healpy as hp
+    from AegeanTools.regions import Region
+    rng = rng_for(*case['seed'])
+    M = case['depth']
+    route = case['route']
+    anchor = (float(rng.uniform(0.2, 6.0)), float(np.arcsin(rng.uniform(-0.8, 0.8))))
+    B = _seq_region(rng, anchor, M, 0.45)
+    ex = Exporter(o, workdir, {'alias': route, 'depth': M, 'modify': case['who'], 'seed': case['seed']})
+    log = ['B = circles at depth %d' % M]
+    if route in ('union_into_empty', 'union_into_empty_norenorm', 'union_then_union'):
+        A = Region(maxdepth=M)
+        A.union(B, renorm=route != 'union_into_empty_norenorm')
+        if route == 'union_then_union':
+            A.union(B)
+    elif route == 'union_into_deeper':
+        A = Region(maxdepth=min(M + int(rng.integers(1, 3)), 12))
+        A.union(B)
+    elif route == 'union_into_coarser':
+        A = Region(maxdepth=max(M - 1, 1))
+        A.union(B)
+    elif route in ('add_pixels_layers', 'add_pixels_layers_norenorm'):
+        A = Region(maxdepth=M)
+        for d in sorted(B.pixeldict):
+            if len(B.pixeldict[d]):
+                A.add_pixels(B.pixeldict[d], d, renorm=route == 'add_pixels_layers')       # B's own set objects
+    elif route == 'shared_caller_set':
+        S = set(hs.expand(snapshot(B)[0], M))
+        B = Region(maxdepth=M)
+        B.add_pixels(S, M)
+        A = Region(maxdepth=M)
+        A.add_pixels(S, M)
+    elif route == 'pickle_copy':
+        path = os.path.join(workdir, 'copy.mim')
+        B.save(path)
+        A = Region.load(path)
+    elif route == 'symdiff_into_empty':
+        A = Region(maxdepth=M)
+        A.symmetric_difference(B)
+    elif route == 'intersect_with_whole':
+        A = Region(maxdepth=M)
+        A.add_pixels(np.arange(48), 1)
+        A.intersect(B)
+    else:
+        raise RuntimeError('harness: unknown route')
+    log.append('A = %s' % route)
+    o.count('alias_cases')
+    o.count('alias_route_' + route)
+    regs = {'A': A, 'B': B}
+    frozen = {'A': OnDisk(A), 'B': OnDisk(B)}
+    # what A must be: B's sky at A's depth
+    wantA = hs.change_depth(frozen['B'].deepest(), B.maxdepth, A.maxdepth)
+    if frozen['A'].deepest() != wantA:
+        ex.violate('derived_region_vs_source', {'n_derived': len(frozen['A'].deepest()), 'n_expected': len(wantA)},
+                   A, 'alias:derive')
+
+    def exports(name, stage, by_value):
+        r = regs[name]
+        f = frozen[name]
+        before = o.counters.get('moc_files_judged', 0)
+        if by_value:
+            lv, fr = snapshot(r)
+            o.count('alias_untouched_state_checks')
+            if fr or sky(lv, r.maxdepth) != sky(f.pixeldict, f.maxdepth):
+                got = hs.expand(lv, r.maxdepth) if not fr else set()
+                ex.violate('untouched_region_changed', {'which': name, 'n_now': len(got), 'n_before': len(f.deepest()),
+                                                        'extra': sorted(got - f.deepest())[:5],
+                                                        'missing': sorted(f.deepest() - got)[:5], 'steps': log[-6:]},
+                           r, stage)
+            ex.moc(r, stage, expect=f)
+            ex.reg(r, stage, expect=f)
+            ex.mim(r, stage, expect=f)
+            o.count('alias_untouched_exports_judged', o.counters.get('moc_files_judged', 0) - before)
+        else:
+            ex.moc(r, stage)
+            ex.reg(r, stage)
+            ex.mim(r, stage)
+
+    exports('A', 'alias:derived:A', True)
+    exports('B', 'alias:derived:B', True)
+    who = case['who']
+    other = 'B' if who == 'A' else 'A'
+    X = regs[who]
+    Mx = X.maxdepth
+    model = set(frozen[who].deepest())
+    Cr = _seq_region(rng, anchor, Mx, 0.45)
+    Cset = hs.expand(snapshot(Cr)[0], Mx)
+    mods = [str(m) for m in rng.choice(ALIAS_MODS, size=int(rng.integers(1, 4)))]
+    if case.get('mods'):
+        mods = list(case['mods'])
+    for k, m in enumerate(mods):
+        log.append('%s.%s' % (who, m))
+        o.count('alias_mod_' + m)
+        if m == 'add_circles':
+            ra, dec, rad = c08._gen_circle(rng, anchor, Mx, scale=0.4)
+            for v, rr in zip(c08.vec_of(ra, dec), rad):
+                model |= set(int(p) for p in hp.query_disc(2 ** Mx, v, rr, inclusive=True, nest=True))
+            ok, _ = ex.subject(X, 'alias:modify', X.add_circles, ra, dec, rad)
+        elif m in ('without', 'intersect', 'symmetric_difference', 'union'):
+            model = {'without': model - Cset, 'intersect': model & Cset, 'symmetric_difference': model ^ Cset,
+                     'union': model | Cset}[m]
+            ok, _ = ex.subject(X, 'alias:modify', getattr(X, m), Cr)
+        elif m == 'add_pixels':
+            pix = [int(x) for x in rng.integers(0, hs.npix(Mx), 3)]
+            model |= set(pix)
+            ok, _ = ex.subject(X, 'alias:modify', X.add_pixels, pix, Mx)
+        elif m == 'get_demoted':
+            ok, _ = ex.subject(X, 'alias:modify', X.get_demoted)
+        elif m == 'sky_within':
+            ok, _ = ex.subject(X, 'alias:modify', X.sky_within, [0.3, 1.0], [0.1, -0.4])
+        else:
+            ok, _ = ex.subject(X, 'alias:modify', X._renorm)
+        if not ok:
+            return
+        st = 'alias:after_%s.%s#%d' % (who, m, k)
+        # the modified one against the set algebra, its exports against its own state
+        lv, fr = snapshot(X)
+        if fr or hs.expand(lv, Mx) != model:
+            ex.violate('modified_region_vs_model', {'which': who, 'n_now': None if fr else len(hs.expand(lv, Mx)),
+                                                    'n_model': len(model), 'steps': log[-6:]}, X, st)
+        exports(who, st + ':' + who, False)
+        # the untouched one against its snapshot
+        exports(other, st + ':' + other, True)
+    o.count('alias_modified_' + who)
+    # finally a query on the untouched one (its sky must still be the snapshot's; its layout may now be the demoted one)
+    U = regs[other]
+    ok, d = ex.subject(U, 'alias:query_untouched', U.get_demoted)
+    if ok:
+        dl, df = hs.to_levels({U.maxdepth: set(d)})
+        o.count('alias_untouched_state_checks')
+        if df or dl[U.maxdepth] != frozen[other].deepest():
+            ex.violate('untouched_region_changed', {'which': other, 'n_now': len(dl[U.maxdepth]),
+                                                    'n_before': len(frozen[other].deepest()), 'after': 'get_demoted',
+                                                    'steps': log[-6:]}, U, 'alias:query_untouched')
+        before = o.counters.get('moc_files_judged', 0)
+        ex.moc(U, 'alias:queried:' + other, expect=frozen[other], after_query=True)
+        ex.reg(U, 'alias:queried:' + other, after_query=True)
+        ex.mim(U, 'alias:queried:' + other)
+        o.count('alias_untouched_exports_judged', o.counters.get('moc_files_judged', 0) - before)
+    o.n_nontrivial += 1
+    o.sample = {'route': route, 'depth': M, 'modified': who, 'steps': log}
+
+
 def cases(seed, tier):
     out = []
+    # near-extreme regions at every depth
+    k_of = {0: 1, 1: 3}
+    for M in range(1, 13):
+        for j, route in enumerate(EXTREME_ROUTES):
+            if route == 'overlap_sum_full' and M < 2:
+                continue
+            heavy = route in ('complement_renorm', 'whole_without', 'few_by_intersect')
+            if heavy and M > (7 if tier == 'quick' else 8):
+                continue
+            reps = 1 if (heavy and M >= 7) or tier == 'quick' else 3
+            for rep_ in range(reps if not (route.startswith('complement') or route == 'whole_without') else max(reps, 2)):
+                if heavy and M >= 7 and rep_ > 0 and tier == 'quick' and route != 'whole_without':
+                    continue
+                out.append({'kind': 'extreme', 'depth': M, 'route': route, 'k': k_of[rep_ % 2],
+                            'via': ('methods', 'functions', 'cli')[(M + j + rep_) % 3],
+                            'seed': [0 if rep_ < 2 else seed, 'extreme', M, route, rep_]})
+    # regions that share history
+    nal = 2 if tier == 'quick' else 14
+    for j, route in enumerate(ALIAS_ROUTES):
+        for M in (2, 3, 4, 6, 8, 10):
+            if route == 'intersect_with_whole' and M > 6:
+                continue
+            for rep_ in range(nal):
+                case = {'kind': 'alias', 'depth': M, 'route': route, 'who': 'AB'[(rep_ + M + j) % 2],
+                        'seed': [0 if rep_ == 0 else seed, 'alias', route, M, rep_]}
+                out.append(case)
+    # the seeded pattern spelt out: union into an empty region, then the copy is modified / queried
+    for M in (4, 7):
+        for mods in (['add_circles'], ['without'], ['get_demoted', 'add_circles'], ['union', '_renorm']):
+            out.append({'kind': 'alias', 'depth': M, 'route': 'union_into_empty', 'who': 'A', 'mods': mods,
+                        'seed': [0, 'alias-fixed', M] + mods})
     nseq = 48 if tier == 'quick' else 480
     for k in range(nseq):
         out.append({'kind': 'sequence', 'depth': 2 + k % 9, 'via': ('functions', 'cli', 'functions')[k % 3],
@@ -680,6 +1065,7 @@ def cases(seed, tier):
 
 def run(case):
     hs.selfcheck()
+    canon_selfcheck()
     o = Obs()
     workdir = scratch_dir()
     try:
@@ -735,6 +1121,10 @@ def run(case):
             o.sample = {'history_ops': [r_.get('op') for r_ in h.hist], 'regions_exported': n}
         elif case['kind'] == 'sequence':
             run_sequence(case, o, workdir)
+        elif case['kind'] == 'extreme':
+            run_extreme(case, o, workdir)
+        elif case['kind'] == 'alias':
+            run_alias(case, o, workdir)
         else:
             raise RuntimeError('harness: unknown case kind')
         return o.result()
